@@ -290,7 +290,7 @@ func C07(sp *spec.Spec, genDir string, mounted map[string][][2]string) *Verdict 
 					if op == nil {
 						continue
 					}
-					if claims[key] > 1 {
+					if claims[claimKey(r.Verb, cases.FullPath(sp, sv, m, ri))] > 1 {
 						v.Notes = append(v.Notes, "route-claimed-by-several-methods")
 						continue
 					}
@@ -300,6 +300,13 @@ func C07(sp *spec.Spec, genDir string, mounted map[string][][2]string) *Verdict 
 		}
 	}
 	return v
+}
+
+var tmplVarRe = regexp.MustCompile(`\{[^}]*\}`)
+
+// claimKey identifies a route up to the names of its path parameters ("/x/{a}" and "/x/{b}" serve the same requests).
+func claimKey(verb, path string) string {
+	return verb + " " + tmplVarRe.ReplaceAllString(normPath(path), "{}")
 }
 
 // routeClaims counts, per "VERB /normalised/path", the design methods that declare that route.
@@ -314,7 +321,7 @@ func routeClaims(sp *spec.Spec) map[string]int {
 				continue
 			}
 			for ri, r := range m.HTTP.Routes {
-				claims[r.Verb+" "+normPath(cases.FullPath(sp, sv, m, ri))]++
+				claims[claimKey(r.Verb, cases.FullPath(sp, sv, m, ri))]++
 			}
 		}
 	}
